@@ -267,6 +267,42 @@ func solve(query string, dir, name string, timeout time.Duration, all bool) (sol
 	return best, tried
 }
 
+// solveAgain asks every solver at once, z3-new additionally under two other random seeds; the first definite answer wins.
+func solveAgain(query string, dir, name string, timeout time.Duration) (solverResult, []solverResult) {
+	_ = os.MkdirAll(dir, 0o755)
+	base := filepath.Join(dir, sanitize(name)+".retry")
+	type variant struct{ solver, file, text string }
+	seeded := func(n int) string {
+		return fmt.Sprintf("(set-option :smt.random_seed %d)\n(set-option :sat.random_seed %d)\n", n, n) + query
+	}
+	vs := []variant{
+		{"z3-new", base + ".smt2", query},
+		{"z3-new", base + ".s7.smt2", seeded(7)},
+		{"z3-new", base + ".s23.smt2", seeded(23)},
+		{"z3", base + ".old.smt2", query},
+		{"cvc5", base + ".cvc5.smt2", cvc5ify(query)},
+	}
+	ch := make(chan solverResult, len(vs))
+	ctx, cancel := context.WithCancel(context.Background())
+	defer cancel()
+	for _, v := range vs {
+		v := v
+		_ = os.WriteFile(v.file, []byte(v.text), 0o644)
+		go func() { ch <- runSolverCtx(ctx, v.solver, v.file, timeout) }()
+	}
+	var tried []solverResult
+	best := solverResult{Status: "timeout"}
+	for range vs {
+		x := <-ch
+		tried = append(tried, x)
+		if x.Status == "unsat" || x.Status == "sat" {
+			return x, tried
+		}
+		best = x
+	}
+	return best, tried
+}
+
 func cvc5ify(q string) string {
 	// cvc5 rejects z3-specific options; drop pattern annotations it dislikes nothing else.
 	q = strings.ReplaceAll(q, "(set-option :smt.mbqi false)\n", "")
